@@ -29,6 +29,10 @@ ELEMS = {
         "P1G": ("ElementTriP1G()", "global", 2), "P2G": ("ElementTriP2G()", "global", 2),
         "Plate15": ("ElementTri15ParamPlate()", "global", 1),
         "TH": ("ElementVector(ElementTriP2()) * ElementTriP1()", "mixed", 1),
+        # equal-order pairs: the composite's last basis function belongs to
+        # the scalar part, so the vector part is asked for its zero field last
+        "V1P1": ("ElementVector(ElementTriP1()) * ElementTriP1()", "mixed", 2),
+        "VCRP0": ("ElementVector(ElementTriCR()) * ElementTriP0()", "mixed", 1),
     },
     "quad": {
         "Q0": ("ElementQuad0()", "scalar", 1), "Q1": ("ElementQuad1()", "scalar", 3),
@@ -38,6 +42,7 @@ ELEMS = {
         "QP2": ("ElementQuadP(2)", "scalar", 3), "QP3": ("ElementQuadP(3)", "scalar", 3),
         "Quad2G": ("ElementQuad2G()", "global", 2), "BFS": ("ElementQuadBFS()", "global", 3),
         "V1": ("ElementVector(ElementQuad1())", "vector", 1),
+        "V1Q1": ("ElementVector(ElementQuad1()) * ElementQuad1()", "mixed", 1),
     },
     "tet": {
         "P0": ("ElementTetP0()", "scalar", 1), "P1": ("ElementTetP1()", "scalar", 3),
@@ -45,6 +50,7 @@ ELEMS = {
         "CR": ("ElementTetCR()", "scalar", 1), "RT0": ("ElementTetRT0()", "hdiv", 1),
         "N0": ("ElementTetN0()", "hcurl", 1),
         "V1": ("ElementVector(ElementTetP1())", "vector", 1),
+        "V1P1": ("ElementVector(ElementTetP1()) * ElementTetP1()", "mixed", 1),
     },
     "hex": {
         "H0": ("ElementHex0()", "scalar", 1), "H1": ("ElementHex1()", "scalar", 3),
